@@ -35,6 +35,7 @@ def run(ctx):
     # safe only while their receivers are awaited without a deadline (the rule is C05's side rule S4, evaluated here as well)
     from . import c05
     c05.side_rules_4(ctx, cg)
+    c05.side_rules_5(ctx)          # ... and so does a metric whose registration failed
     # shared clause: an upstream reply reaches the query it answers (waiters keyed by query id)
     ctx.include("C03", rules=("R8", "R3"))
 
@@ -337,6 +338,40 @@ def _r1_r3(ctx, cg):
                 if y[0] == "field" and y[2] == "address":
                     dst_base = lift(P, b, y[1])[1]
             dst_ok = dst_base is not None and is_recv(dst_base)
+            # ... and it is that address itself, not something rebuilt from it (a re-made socket address has lost the IPv6 scope id:
+            # the reply to a link-local client then fails in sendmsg)
+
+            def plain(t, depth=0):
+                t = norm(t)
+                for _ in range(12):
+                    if t[0] in ("ref", "deref"):
+                        t = norm(t[1])
+                    elif t[0] == "payload":
+                        t = norm(t[2])
+                    elif t[0] == "agg" and t[2] == "Some" and len(t[3]) == 1:
+                        t = norm(t[3][0][1])
+                    elif t[0] == "call" and len(t[2]) == 1 and str(t[1]).rsplit("::", 1)[-1] in ("unwrap", "expect", "as_ref", "clone", "unwrap_unchecked"):
+                        t = norm(t[2][0])
+                    else:
+                        break
+                if t[0] == "field" and t[2] == "address":
+                    return True
+                if t[0] == "field" and t[2] == "remote_addr" and depth == 0:
+                    # through the parsed message: DnsMessage.remote_addr must be build_dns_message's parameter, passed the datagram's address
+                    src = norm(t[1])
+                    while src[0] in ("payload", "ref", "deref"):
+                        src = norm(src[2] if src[0] == "payload" else src[1])
+                    if src[0] == "call" and str(src[1]).endswith("build_dns_message") and src[1] in P.bodies:
+                        cb_ = P.bodies[src[1]]
+                        Tc_ = terms(P, cb_)
+                        for _, b3, i3, s3 in find_aggs(P, "dns::DnsMessage", [cb_]):
+                            f3 = norm(dict(norm(Tc_.rvalue(s3["rv"], b3, i3))[3]).get("remote_addr", ("unknown",)))
+                            if f3[0] == "param" and f3[1] - 1 < len(src[2]):
+                                return plain(src[2][f3[1] - 1], 1)
+                return False
+            verbatim = plain(dst)
+            ctx.check(verbatim, "R1", "udp-reply-destination-is-the-address-as-received", where,
+                      "the destination must be the received datagram's address itself (is %s)" % show(dst)[:100])
             cm = a[2]
             lip_base = None
             if cm[0] == "call" and str(cm[1]).endswith("ControlMessage::set_send_from"):
